@@ -30,7 +30,7 @@ typedef struct {
 	uint8_t *bytes; size_t len; int fd; char path[64];
 	ic_file f;
 	size_t nregions;                    /* data blocks + index block */
-	size_t first_idx[8];                /* index of the first entry of each data block in the full sequence */
+	size_t first_idx[12];                /* index of the first entry of each data block in the full sequence */
 	size_t total;
 	tkv all[64];
 } seed;
@@ -49,11 +49,25 @@ static void seed_finish(seed *s) {
  * 3: independent encoder, 3 tiny blocks v2; 4: independent encoder, 3 tiny blocks v1; 5: independent encoder zlib tiny blocks */
 static void seed_make(seed *s, int kind) {
 	memset(s, 0, sizeof *s);
-	if (kind <= 2) {
-		tkv e[3]; uint8_t k[3][2]; int n = kind == 0 ? 1 : 3;
-		for (int i = 0; i < n; i++) { k[i][0] = 'k'; k[i][1] = '0' + i; e[i].k = k[i]; e[i].kl = 2; e[i].vl = kind == 0 ? 1 : 600; e[i].v = tbl_val(i + 1, e[i].vl); }
+	if (kind <= 2 || kind >= 10) {
+		tkv e[3]; uint8_t k[3][2]; int n = (kind == 0 || kind >= 10) ? 1 : 3;
+		for (int i = 0; i < n; i++) { k[i][0] = 'k'; k[i][1] = '0' + i; e[i].k = k[i]; e[i].kl = 2; e[i].vl = kind == 0 ? 1 : kind >= 10 ? (size_t) (kind - 10) : 600; e[i].v = tbl_val(i + 1, e[i].vl); }
 		tcfg cfg = { 0 }; cfg.block_size = 1024; cfg.comp = kind == 1 ? 3 : 0; cfg.prefix = kind == 2 ? 13 : 0;
 		int fd = tbl_write(&cfg, e, n, NULL); s->bytes = tbl_slurp(fd, &s->len); close(fd);
+	} else if (kind == 6) {
+		/* eight one-entry blocks whose stored lengths cover every residue modulo 8 (word-at-a-time CRC tails) */
+		ic_buf f = { 0 }, idx = { 0 }; ic_enc_ent ie[8]; uint8_t offv[8][10]; static uint8_t k[8][2]; static uint8_t v[8][8]; uint64_t bytes_data = 0, nv = 0;
+		for (int i = 0; i < 8; i++) {
+			k[i][0] = 'a' + i; memset(v[i], '0' + i, i);
+			ic_enc_ent e1 = { k[i], 1, v[i], (size_t) i, true, 0 }; ic_buf blk = { 0 }; ic_enc_block(&blk, &e1, 1);
+			uint64_t off = f.n; ic_enc_store(&f, blk.p, blk.n, IC_NONE, 2); bytes_data += f.n - off; free(blk.p); nv += i;
+			ie[i] = (ic_enc_ent) { k[i], 1, offv[i], ic_putvar(offv[i], off), true, 0 };
+		}
+		ic_enc_block(&idx, ie, 8);
+		uint64_t ioff = f.n; ic_enc_store(&f, idx.p, idx.n, IC_NONE, 2);
+		uint64_t fields[9] = { ioff, 1024, 0, 8, 8, bytes_data, f.n - ioff, 8, nv };
+		ic_enc_trailer(&f, 2, fields);
+		s->bytes = f.p; s->len = f.n; free(idx.p);
 	} else {
 		int version = kind == 4 ? 1 : 2, comp = kind == 5 ? IC_ZLIB : IC_NONE;
 		ic_buf f = { 0 }, idx = { 0 }; ic_enc_ent ie[3]; uint8_t offv[3][10]; static uint8_t k[3][3]; static uint8_t v[3][8]; uint64_t bytes_data = 0, nk = 0, nv = 0;
@@ -159,6 +173,22 @@ static void check_damaged(fcase *c) {
 	vh_case_end();
 }
 
+/* the undamaged seed itself must be accepted: a well-formed file (from the writer or from the independent encoder) that mtbl_verify
+ * or a verify_checksums reader rejects means the library's checksum disagrees with CRC-32C or with itself */
+static void seed_must_verify(seed *s, int kind) {
+	fcase c; memset(&c, 0, sizeof c); c.kind = kind; c.nbits = 0;
+	vh_case_begin(render, &c);
+	g_said_ok = 0; sigjmp_buf jb; bool ok = false;
+	if (VH_TRY_ASSERT(jb)) { ok = verify_file(s->path); VH_END_ASSERT(); } else drop_map();
+	if (!ok || g_said_ok != 1) vh_violation("intact-rejected", "mtbl_verify does not report the undamaged seed file %d as OK", kind);
+	struct mtbl_reader_options *ro = mtbl_reader_options_init(); mtbl_reader_options_set_verify_checksums(ro, true);
+	struct mtbl_reader *r = NULL; struct mtbl_iter *it = NULL; const char *w = "aborted";
+	if (VH_TRY_ASSERT(jb)) { r = mtbl_reader_init_fd(s->fd, ro); if (r) { it = mtbl_source_iter(mtbl_reader_source(r)); w = tbl_drain_cmp(it, s->all, s->total); } VH_END_ASSERT(); } else drop_map();
+	if (!r || w) vh_violation("intact-rejected", "a verify_checksums reader does not read the undamaged seed file %d completely (%s)", kind, r ? w : "not opened");
+	if (it) mtbl_iter_destroy(&it); if (r) mtbl_reader_destroy(&r); mtbl_reader_options_destroy(&ro);
+	VH_COUNT("intact_seeds_verified", 1);
+	vh_case_end();
+}
 static uint64_t g_idx; static int g_kind;
 static uint64_t batch_cases;
 #define BATCH 150000
@@ -249,14 +279,17 @@ int main(int argc, char **argv) {
 		else { while (*s == ':' && c.nbits < 4) { c.bit[c.nbits++] = (uint32_t) strtoul(s + 1, (char **) &s, 10); } }
 		seed_make(&SD, c.kind);
 		struct mtbl_reader_options *ro = mtbl_reader_options_init(); mtbl_reader_options_set_verify_checksums(ro, true); g_reader = mtbl_reader_init_fd(SD.fd, ro); mtbl_reader_options_destroy(&ro);
-		check_damaged(&c);
+		if (!c.is_burst && c.nbits == 0) seed_must_verify(&SD, c.kind); else check_damaged(&c);
 		return vh_finish();
 	}
 	if (!strcmp(mode, "intact")) { part1(); if (vh_shard == 0) vh_sample("every K9 subset of size<=3 x value sizes {0,1,600}^n x 6 compression types x prefix {0,13}: mtbl_verify says OK and a verify_checksums reader drains it"); return vh_finish(); }
 	/* damage: mode = "damage <kind>" */
-	g_kind = atoi(vh_arg(1, "0"));
+	int k_lo = atoi(vh_arg(1, "0")), k_hi = vh_argc > 2 ? atoi(vh_arg(2, "0")) : k_lo;
 	g_maxtriple_bits = vh_thorough ? 700 : 260;
+	for (g_kind = k_lo; g_kind <= k_hi && !vh_too_many(); g_kind++) {
+	if (g_kind > k_lo) seed_free(&SD);
 	seed_make(&SD, g_kind);
+	if (vh_shard == 0) seed_must_verify(&SD, g_kind);
 	visit_no = 0; enumerate(visit_count); uint64_t total = visit_no;
 	for (batch_lo = 0; batch_lo < total && !vh_too_many(); batch_lo += (uint64_t) BATCH * vh_nshards) {
 		batch_hi = batch_lo + (uint64_t) BATCH * vh_nshards;
@@ -270,6 +303,8 @@ int main(int argc, char **argv) {
 			vh_batch_exit();
 		}
 	}
+	}
+	g_kind = k_hi;
 	vh_max("max_region_bits", 0); for (size_t r = 0; r < SD.nregions; r++) vh_max("max_region_bits", region_len(&SD, r) * 8);
 	if (vh_shard == 0) { fcase c = { g_kind, 1, 3, { 3, 40, 41 }, 0, 0, 0 }; char b[128]; render(b, sizeof b, &c); vh_sample("%s", b); }
 	seed_free(&SD);
